@@ -616,7 +616,7 @@ func (c *checker) checkTofu(g D, arg interface{}, rend D) bool {
 	switch kind {
 	case "error":
 		if rerr == nil {
-			ctx.Violation(core.Sig{Family: famTofu, Feature: "non-map-argument-accepted:" + descKind(g)},
+			ctx.Violation(core.Sig{Family: famTofu, Feature: "non-map-argument-accepted"},
 				fmt.Sprintf("Tofu.Render accepts a %s argument (converts to a non-map) without error", descKind(g)), rep)
 			return false
 		}
@@ -627,7 +627,7 @@ func (c *checker) checkTofu(g D, arg interface{}, rend D) bool {
 		}
 		exp := strings.Join(want, "|")
 		if rerr != nil || out != exp {
-			ctx.Violation(core.Sig{Family: famTofu, Feature: "converted-map-not-seen-by-template:" + descKind(g)},
+			ctx.Violation(core.Sig{Family: famTofu, Feature: "converted-map-not-seen-by-template"},
 				fmt.Sprintf("Tofu.Render(%s): template printing %v gave %q err=%v, expected %q", canon(g), keys, out, rerr, exp), rep)
 			return false
 		}
@@ -901,6 +901,21 @@ func (c *checker) replay(path string) {
 			c.checkTofu(g, toArg(rv), rend)
 			return
 		}
+		if dstr(r, "kind") == "convert-panic" {
+			lc, tf, err := parseOpts(r["o"])
+			if err != nil {
+				ctx.ToolError("replay: %v", err)
+				return
+			}
+			o := structOpts(lc, tf)
+			got, p := convert(o, toArg(rv))
+			fmt.Printf("replay convert %s: panic=%v result=%s\n", canon(g), p, show(got))
+			if p != nil {
+				ctx.Violation(core.Sig{Family: famConvert, Feature: panicFeature(g, o)},
+					fmt.Sprintf("data.NewWith still panics on %s: %v", canon(g), p), r)
+			}
+			return
+		}
 		lc, tf, err := parseOpts(r["o"])
 		if err != nil {
 			ctx.ToolError("replay: %v", err)
@@ -997,7 +1012,7 @@ func (c *checker) recordTraces(n, perChunk int) []*traceChunk {
 		if p != nil {
 			ctx.Violation(core.Sig{Family: famConvert, Feature: panicFeature(g, o)},
 				fmt.Sprintf("data.NewWith panics on a JSON-like value %s: %v", canon(g), p),
-				map[string]interface{}{"kind": "convert-panic", "mode": "M3", "g": g, "o": D{"lc": lc, "tf": tf}, "observed_panic": fmt.Sprint(p)})
+				map[string]interface{}{"kind": "convert-panic", "mode": "M3", "g": shrinkPanic(g, o), "g_generated": g, "o": D{"lc": lc, "tf": tf}, "observed_panic": fmt.Sprint(p)})
 			continue
 		}
 		truthy, _ := safeTruthy(got)
